@@ -250,7 +250,10 @@ def _replay(st, mode):
     h1 = heavy(obj)
     h2 = heavy(obj)
     for name, v in h1.items():
-        if isinstance(v, str) and not (name == "in_hull" and not est["reg"] and v == "EXC:AssertionError"):
+        precondition = (name == "in_hull" and not est["reg"]) or name == "dist_scaling"
+        # documented preconditions: queries before a system is registered; chromatic scaling needs non-negative
+        # captures and a neutral point inside the chromatic gamut (AssertionError otherwise)
+        if isinstance(v, str) and not (precondition and v == "EXC:AssertionError"):
             bad.append(("C14.no-error", dict(q=name, exc=v[4:], **where0), None, v))
     for name in h1:
         if not same(h1[name], h2[name], 0):
